@@ -167,6 +167,33 @@ Theorem C11_anyOf_inhabited :
 Proof. exact anyof_inhabited. Qed.
 Print Assumptions C11_anyOf_inhabited.
 
+(* anyOf against the reference semantics: the carrier accepts a JSON object iff SOME BRANCH IS VALID and the object decodes into the carrier's merged
+   fields - branches that are scalar objects (depth n) with their generated types; every branch decode decided (no crash: C19_total; fuel: per instance) *)
+Theorem C11_anyOf_objects_exact : forall idf cf defs fmt_ok env sdefs,
+  g_minsized cf = false -> g_only_models cf = false ->
+  forall n b0 c0 ch nm fs (bs : list schema) (brs : list gty) kv,
+  Forall2 (fun b bt => exists a self sub sc bb, sc <> [] /\ sobj idf cf defs env sdefs n b /\ dok idf cf defs env sdefs n b kv /\
+                       gen idf cf defs (fuelG n a) MDeclared self sub b sc = Done (bt, bb)) bs brs ->
+  (forall bt, In bt brs -> dec fmt_ok env (fuelD n b0) bt (JObj kv) <> Crash /\ dec fmt_ok env (fuelD n b0) bt (JObj kv) <> NoFuel) ->
+  is_ok (dec fmt_ok env (S (fuelD n b0)) (TStruct (ch :: nm) fs (Some [VAnyOf brs])) (JObj kv)) =
+  existsb (fun b => valid fmt_ok sdefs (fuelV n c0) b (JObj kv)) bs &&
+  is_ok (obind (plain_fields (dec fmt_ok env (fuelD n b0)) zero fs (JObj kv)) (fun st => addl_block fs (Some (Some kv)) st)).
+Proof. exact anyof_objects_exact. Qed.
+Print Assumptions C11_anyOf_objects_exact.
+
+(* instance (anyOf of {a: string, required} and {b: integer, required}): documents satisfying the first branch, the second, neither - and one that
+   satisfies the first branch but gives b a string: valid under anyOf, REJECTED by the carrier (the second conjunct; recorded finding) *)
+Theorem C11_anyOf_exact_inhabited :
+  exists t bb fs, gen (fun s => s) (mkCfg false false) [] 6 MInline None false ex_any ex_t = Done (t, bb) /\ t = TStruct ex_t fs (Some [VAnyOf [an_b0; an_b1]]) /\
+    (forall kv, In kv an_docs ->
+       is_ok (dec (fun _ _ => true) [] (S (fuelD 0 0)) t (JObj kv)) =
+       existsb (fun b => valid (fun _ _ => true) [] (fuelV 0 0) b (JObj kv)) [ob [97]%N SString; ob [98]%N SInteger] &&
+       is_ok (obind (plain_fields (dec (fun _ _ => true) [] (fuelD 0 0)) zero fs (JObj kv)) (fun st => addl_block fs (Some (Some kv)) st))) /\
+    map (fun kv => is_ok (dec (fun _ _ => true) [] (S (fuelD 0 0)) t (JObj kv))) an_docs = [true; true; false; false] /\
+    map (fun kv => existsb (fun b => valid (fun _ _ => true) [] (fuelV 0 0) b (JObj kv)) [ob [97]%N SString; ob [98]%N SInteger]) an_docs = [true; true; false; true].
+Proof. exact anyof_exact_inhabited. Qed.
+Print Assumptions C11_anyOf_exact_inhabited.
+
 (* the reference semantics the implementation is compared with *)
 Theorem C11_spec : forall fmt_ok defs f c props addl af items allof anyof j,
   c_ref c = None ->
